@@ -210,11 +210,30 @@ func (x *c03ctx) runK17() {
 	// load-time validators: a reachable function that takes the elements of container F and hands each to a function that
 	// returns a non-nil error on the `param == nil` edge
 	validators := map[*types.Var]string{}
-	nilRejects := func(g *ssa.Function, i int) bool {
-		if g == nil || g.Blocks == nil || i >= len(g.Params) {
+	var nilRejects func(g *ssa.Function, i int) bool
+	nilRejectsDepth := 0
+	nilRejects = func(g *ssa.Function, i int) bool {
+		if g == nil || g.Blocks == nil || i >= len(g.Params) || nilRejectsDepth > 3 {
 			return false
 		}
 		p := g.Params[i]
+		// a thin helper that hands its parameter straight on to a rejecting function (on every path: in its entry block)
+		for _, in := range g.Blocks[0].Instrs {
+			if ci, ok := in.(ssa.CallInstruction); ok {
+				if cf := ci.Common().StaticCallee(); cf != nil && cf != g {
+					for ai, a := range ci.Common().Args {
+						if a == ssa.Value(p) {
+							nilRejectsDepth++
+							ok := nilRejects(cf, ai)
+							nilRejectsDepth--
+							if ok {
+								return true
+							}
+						}
+					}
+				}
+			}
+		}
 		for _, blk := range g.Blocks {
 			if len(blk.Instrs) == 0 {
 				continue
